@@ -97,21 +97,14 @@ def run(ctx):
     except TranslationError as e:
         broken = {"stage": "translate", "error": str(e)}
         text = None
-    res = []
     if text is not None:
-        res = C.build_dynamic([("Generated/RadiiGen.v", text), ("Reflect/RadiiInst.v", None),
-                               ("Properties/C19.v", None)], always=("Properties/C19.v",))
-        ff = C.first_failure(res)
-        n_inst = len(C.theorem_names(os.path.join(C.COQ, "Reflect/RadiiInst.v")))
-        inst_ok = len(res) >= 2 and res[1]["rc"] == 0
-        ctx.add_obligations(n_inst, n_inst if inst_ok else 0, "reflection instances Reflect/RadiiInst.v (vm_compute over the regenerated tables)")
-        names = C.theorem_names(os.path.join(C.COQ, "Properties/C19.v"))
-        prop_ok = len(res) == 3 and res[2]["rc"] == 0
-        pres = {"ok": prop_ok, "theorems": names, "assumptions": C.parse_assumptions(res[2]["out"]) if len(res) == 3 else [],
-                "cmd": "coqc -Q coq MV Generated/RadiiGen.v Reflect/RadiiInst.v Properties/C19.v (harness/check.py C19)"}
+        pres = C.prove_property("C19", [("Generated/RadiiGen.v", text), ("Inst/RadiiInst.v", None)])
+        n_inst = len(C.theorem_names(os.path.join(C.COQ, "Inst/RadiiInst.v")))
+        inst_ok = any(r["path"] == "Inst/RadiiInst.v" and r["rc"] == 0 for r in pres["results"])
+        ctx.add_obligations(n_inst, n_inst if inst_ok else 0, "reflection instances Inst/RadiiInst.v (vm_compute over the regenerated tables)")
         ctx.record_proof(pres)
-        if ff:
-            broken = {"stage": "prove", "file": ff["path"], "error": ff["out"][-1500:]}
+        if pres["failed"]:
+            broken = {"stage": "prove", "file": pres["failed"]["path"], "error": pres["failed"]["out"][-1500:]}
     else:
         ctx.add_obligations(1, 0, "translation of get_radii")
 
